@@ -437,6 +437,7 @@ def dump_struct(stype, vals):
 # ----------------------------------------------------------------------------------------------------------------------
 
 _TYPE_CALL = type.__call__
+_META_DUMPS = MetaType.dumps
 
 
 def _call_hook(self, f, args, kwargs):
@@ -477,8 +478,22 @@ def _call_hook(self, f, args, kwargs):
                 return read_type(t, ModelBytesIO(a), None)
             if hasattr(a, "read") and not isinstance(a, (int, bytes)):
                 return read_type(t, a, None)
+    if f is _META_DUMPS and args and isinstance(args[0], StructureMetaType):
+        st = kwargs.get("value", args[1] if len(args) > 1 else None)
+        if isinstance(st, SymStruct):
+            return V.unwrap(st.dumps())
+        if isinstance(st, Structure):
+            vals = {fl._name: getattr(st, fl._name) for fl in type(st).__fields__}
+            if not all(V.deep_concrete(V.unwrap(v)) and not isinstance(v, (SymEnum, SymStruct)) for v in vals.values()):
+                return V.unwrap(dump_struct(type(st), vals))  # a real instance that was assigned symbolic field values
     if isinstance(f, types.MethodType) and isinstance(f.__self__, Structure) and f.__name__ == "dumps":
-        return f()
+        st = f.__self__
+        if type(st) is SymStruct:
+            return f()
+        vals = {fl._name: getattr(st, fl._name) for fl in type(st).__fields__}
+        if all(V.deep_concrete(V.unwrap(v)) and not isinstance(v, (SymEnum, SymStruct)) for v in vals.values()):
+            return f()
+        return V.unwrap(dump_struct(type(st), vals))  # a real instance that was assigned symbolic field values
     return NOT_HANDLED
 
 
@@ -499,6 +514,10 @@ _len0 = V.BUILTIN_MODELS["len"]
 def m_len_struct(x):
     if isinstance(x, SymStruct):
         return len(x.dumps().cells)
+    if isinstance(x, Structure):
+        vals = {fl._name: getattr(x, fl._name) for fl in type(x).__fields__}
+        if not all(V.deep_concrete(V.unwrap(v)) and not isinstance(v, (SymEnum, SymStruct)) for v in vals.values()):
+            return len(dump_struct(type(x), vals).cells)
     return _len0(x)
 
 
